@@ -46,6 +46,7 @@ def aliasN (n : Node) (v : Val) (p : List Seg) (live : Bool) : Option Bool :=
         | some (ch, fv) => if ch.isLeaf then (if ch.ptr && fv.isNilPtr then none else some live) else aliasN ch fv rest live
         | none => none)
      | _, _ => none)
+termination_by structural p
 
 /-- The path class of C15: struct fields, pointer dereferences and struct-slice indices only, ending
 on an existing scalar / string / bytes element. -/
@@ -73,5 +74,6 @@ def inAliasClass (n : Node) (v : Val) (p : List Seg) : Bool :=
         | some (ch, fv) => if ch.isLeaf then rest.isEmpty && !(ch.ptr && fv.isNilPtr) else inAliasClass ch fv rest
         | none => false)
      | _, _ => false)
+termination_by structural p
 
 end Inspector
